@@ -94,6 +94,12 @@ reg("C01",
     "Trusted: vf/ref/treebuilder.py + vf/ref/tokenizer.py (own transcriptions of the June-2020 standard, SPEC_NOTES.md); 27 recorded deviations of html5lib from the standard are listed in known_findings.json with pinned inputs.",
     "DESIGN.md §3 C01")
 
+reg("C07",
+    "round-trip property-based testing: abstract trees generated from a grammar of the HTML content model -> html5lib tree -> HTMLSerializer under generated option records / walkers / output encodings -> re-parse; the re-parsed tree must equal the generated tree",
+    "Exploration: conforming documents (tables, lists, forms, select, ruby, pre/textarea, raw-text elements, SVG/MathML islands, comments, markup-significant and non-ASCII text and attribute values) x the cross product of 10 serializer options x 8 encodings x 2 walkers; recorded serializer defects are accepted only when the re-parsed tree equals the exactly predicted wrong tree (expected-difference transformers). Held on everything explored.",
+    "The generator defines 'conforming' (content model encoded in vf/gen/conforming.py; doctype always present); trees that html5lib does not parse back from our explicit writer are excluded and counted. 6 recorded findings, 2 repaired defects.",
+    "DESIGN.md §3 C07")
+
 NOT_APPLICABLE = {}
 
 
